@@ -182,6 +182,60 @@ def candidate_replay(key):
     return _CAND[key]
 
 
+def _fresh_experimenter_obligation(chk):
+    import ast as _ast
+    dotted, cn, fattr = 'vizier._src.benchmarks.runners.benchmark_state', 'ExperimenterDesignerBenchmarkStateFactory', 'experimenter_factory'
+    name = 'C14.%s.fresh_experimenter_per_state' % cn
+    t0 = time.time()
+    try:
+        ci = ModuleInfo.get(dotted).find_class(cn)
+    except (KeyError, FileNotFoundError) as e:
+        chk.error('extract.%s' % cn, 'class not found in the current tree: %r' % (e,))
+        return
+    if ci is None or '__call__' not in ci.methods:
+        chk.error('extract.%s' % cn, 'class or its __call__ not found in the current tree')
+        return
+    chk.function(dotted, cn + '.__call__')
+
+    def calls_factory(fn):
+        return [n.lineno for n in _ast.walk(fn) if isinstance(n, _ast.Call) and isinstance(n.func, _ast.Attribute)
+                and n.func.attr == fattr and isinstance(n.func.value, _ast.Name) and n.func.value.id == 'self']
+    # methods reachable from __call__ through self.<method>() calls
+    reach, todo = [], ['__call__']
+    while todo:
+        m = todo.pop()
+        if m in reach or m not in ci.methods:
+            continue
+        reach.append(m)
+        for n in _ast.walk(ci.methods[m]):
+            if isinstance(n, _ast.Call) and isinstance(n.func, _ast.Attribute) and isinstance(n.func.value, _ast.Name) and n.func.value.id == 'self':
+                todo.append(n.func.attr)
+    in_call = [(m, calls_factory(ci.methods[m])) for m in reach if calls_factory(ci.methods[m])]
+    elsewhere = [(m, calls_factory(fn)) for m, fn in ci.methods.items() if m not in reach and calls_factory(fn)]
+    detail = {'factory_invoked_on_the___call___path': in_call, 'factory_invoked_elsewhere (construction time / cached)': elsewhere}
+    if in_call and not elsewhere:
+        chk.obligation(name, cn + '.__call__', 'frame', report.PROVED, time.time() - t0, detail=detail)
+        return
+    # the product of the factory is built outside __call__ (cached) or not built at all on the __call__ path
+    cmd = ['/venv/bin/python', os.path.join(report.VERIF, 'replay', 'c14_fresh_state.py')]
+    env = dict(os.environ)
+    env['VERIF_REPO'] = source.REPO
+    rr = None
+    try:
+        p = subprocess.run(cmd, capture_output=True, text=True, timeout=900, env=env, cwd=report.VERIF)
+        rr = json.loads([l for l in p.stdout.splitlines() if l.startswith('{')][-1])
+    except Exception as e:      # replay trouble is never a verdict
+        rr = {'reproduced': None, 'error': repr(e)}
+    model = '%s.__call__ does not invoke self.%s() for every state (%s)' % (
+        cn, fattr, 'the factory is invoked in %s instead' % [m for m, _ in elsewhere] if elsewhere else 'it is never invoked')
+    if rr.get('reproduced'):
+        chk.obligation(name, cn + '.__call__', 'frame', report.VIOLATED, time.time() - t0, detail=detail, model=model,
+                       replay={'native_run': rr, 'how_to_replay': 'VERIF_REPO=<tree> /venv/bin/python /verif/replay/c14_fresh_state.py'}, reproduced=True)
+    else:
+        chk.obligation(name, cn + '.__call__', 'frame', report.UNDECIDED, time.time() - t0,
+                       detail=dict(detail, reason=model + '; the native witness did not show a dependence on earlier states', native_run=rr))
+
+
 def replay_designers(which, timeout=600):
     """Run the two-process replay; -> dict name -> result dict, or {'error': text}."""
     cmd = ['/venv/bin/python', os.path.join(report.VERIF, 'replay', 'c14_twoproc.py'), '--designers', ','.join(which)]
@@ -328,6 +382,11 @@ def main(tier):
                     _mark_reproduced(chk, o, r)
                 else:
                     _attach_replay_result(o, r if r else res)
+
+    # ---- a benchmark state factory that owns an experimenter FACTORY must build a fresh experimenter for every state:
+    # an experimenter is stateful (seeded noise keeps its position in the stream), so one object shared by the states of
+    # one factory makes a seeded study depend on the studies produced before it in the same process
+    _fresh_experimenter_obligation(chk)
 
     # ---- restore path: load(metadata) must make every random generator a function of the restored state
     from pyvc import rngload
